@@ -32,6 +32,7 @@ type c04case struct {
 	on    int
 	kind  int
 	sched bool // explore schedules / map orders on a subset of table pairs
+	al    int  // alias pair (0: x / y; others: aliases one of which is a prefix of the other)
 	twice bool // the join inside a CTE that is read twice (UNION ALL): the join node is built more than once in one New
 }
 
@@ -102,6 +103,14 @@ func (p *c04) Init(tier string) {
 	for _, on := range []int{0, 2, 5, 8, 11, 13, 20, 27} {
 		for k := range p.kinds {
 			p.cases = append(p.cases, c04case{on: on, kind: k, twice: true})
+		}
+	}
+	// aliases one of which is a prefix of the other, in both assignments
+	for _, on := range []int{0, 1, 2, 5, 10, 11, 15, 20, 26, 27, 31} {
+		for k := range p.kinds {
+			for al := 1; al < len(c04Aliases); al++ {
+				p.cases = append(p.cases, c04case{on: on, kind: k, al: al})
+			}
 		}
 	}
 	// schedule / map-order exploration: every kind x a representative ON set
@@ -185,6 +194,18 @@ func (p *c04) Init(tier string) {
 	}
 	p.left = append(p.left, big(la, 17, "id"))
 	p.right = append(p.right, big(ra, 13, "rid"))
+	// numeric keys that differ only far behind the decimal point (a key text with a fixed number of
+	// decimals would merge them)
+	p.left = append(p.left, []any{
+		map[string]any{"id": 0.0, "k": "a", "s": "b", "z": 52.5200071, "a": 0.30000000000000004},
+		map[string]any{"id": 1.0, "k": "b", "s": "b", "z": 52.5200072, "a": 0.3},
+		map[string]any{"id": 2.0, "k": "a", "s": "-b", "z": 1e-9, "a": 1e15 + 0.5},
+	})
+	p.right = append(p.right, []any{
+		map[string]any{"rid": 0.0, "k": "a", "s": "b", "b": 52.5200072, "m": 0.3},
+		map[string]any{"rid": 1.0, "k": "b", "s": "-b", "b": 52.5200071, "m": 0.30000000000000004},
+		map[string]any{"rid": 2.0, "k": "a", "s": "b", "b": 2e-9, "m": 1e15},
+	})
 }
 
 func (p *c04) NumCases() int { return len(p.cases) }
@@ -203,7 +224,19 @@ func c04OnSQL(e Expr) string {
 	panic("c04OnSQL")
 }
 
+var c04Aliases = [][2]string{{"x", "y"}, {"x", "xy"}, {"xy", "x"}, {"t", "u"}}
+
 func (p *c04) sqlOf(c *c04case) string {
+	s := p.sqlXY(c)
+	if c.al == 0 {
+		return s
+	}
+	la, ra := c04Aliases[c.al][0], c04Aliases[c.al][1]
+	s = strings.NewReplacer("x.", "\x01.", "y.", "\x02.", " t x ", " t \x01 ", " u y ", " u \x02 ").Replace(s)
+	return strings.NewReplacer("\x01", la, "\x02", ra).Replace(s)
+}
+
+func (p *c04) sqlXY(c *c04case) string {
 	var on string
 	switch e := p.ons[c.on].e.(type) {
 	case And:
@@ -320,6 +353,19 @@ func (p *c04) RunCase(i int) *core.CaseResult {
 				r.Fail(p.sig(c, out.Status()), fmt.Sprintf("%s on t=%s u=%s: ended with %s: %v %s %s; reference %v", sql, gq.Render(l), gq.Render(rt), out.Status(), out.Err, out.Panic, out.GPanic, want), cs)
 				continue
 			}
+			if c.al > 0 {
+				// back to the reference's alias names
+				la, ra := c04Aliases[c.al][0], c04Aliases[c.al][1]
+				for i, row := range out.Rows {
+					if m, ok := row.(map[string]any); ok && len(m) == 2 {
+						lv, lok := m[la]
+						rv, rok := m[ra]
+						if lok && rok {
+							out.Rows[i] = map[string]any{"x": lv, "y": rv}
+						}
+					}
+				}
+			}
 			got := gq.RenderRows(out.Rows)
 			sort.Strings(got)
 			if len(want) > 0 && len(want) < len(l)*len(rt) {
@@ -388,7 +434,7 @@ func (p *c04) runSched(r *core.CaseResult, c *c04case, sql string) {
 
 func (p *c04) Meta() core.Meta {
 	return core.Meta{
-		Rule: "one case per (ON expression: 11 single comparisons in both orientations, 16 AND pairs in both orders, 6 OR pairs, 3-conjunct and repeated-column forms; key columns named differently on the two sides) x (14 join kinds: JOIN/LEFT/RIGHT x auto/HASH_JOIN, STRAIGHT_JOIN, each also PARALLEL), run on every pair of tables of <= 2 (thorough 3) rows over 4 archetypes per side (duplicate keys, two string key columns that collide under textual concatenation) plus one pair of 17 x 13 rows, and compared as a multiset with the textbook nested-loop join; a representative ON set x all kinds also with the join inside a CTE that is read twice (UNION ALL: the result must be the textbook multiset twice); plus exploration cases: a representative ON set x all kinds on a subset of table pairs under every Go-map iteration order and (PARALLEL) every thread schedule within the deviation bound. non-trivial = the textbook result is a non-empty proper subset of the cross product / more than one execution explored",
+		Rule: "one case per (ON expression: 11 single comparisons in both orientations, 16 AND pairs in both orders, 6 OR pairs, 3-conjunct and repeated-column forms; key columns named differently on the two sides; a representative subset also with table aliases one of which is a prefix of the other, and with the table names themselves as aliases) x (14 join kinds: JOIN/LEFT/RIGHT x auto/HASH_JOIN, STRAIGHT_JOIN, each also PARALLEL), run on every pair of tables of <= 2 (thorough 3) rows over 4 archetypes per side (duplicate keys, two string key columns that collide under textual concatenation) plus one pair of 17 x 13 rows and one pair whose numeric keys differ only far behind the decimal point, and compared as a multiset with the textbook nested-loop join; a representative ON set x all kinds also with the join inside a CTE that is read twice (UNION ALL: the result must be the textbook multiset twice); plus exploration cases: a representative ON set x all kinds on a subset of table pairs under every Go-map iteration order and (PARALLEL) every thread schedule within the deviation bound. non-trivial = the textbook result is a non-empty proper subset of the cross product / more than one execution explored",
 		Assumptions: []string{
 			"key columns hold non-NULL values of one scalar kind; ON compares a left column with a right column",
 			"outer rows carry NULL under the other alias; the result is compared as a multiset (order is not fixed by the property)",
